@@ -83,6 +83,7 @@ fn same_style(x: &MonoTextStyle<'_, Gray8>, y: &MonoTextStyle<'_, Gray8>) -> boo
     x.text_color == y.text_color && x.background_color == y.background_color && x.underline_color == y.underline_color
         && x.strikethrough_color == y.strikethrough_color && core::ptr::eq(x.font, y.font)
 }
+#[track_caller]
 fn api_fail(what: &str, got: &MonoTextStyle<'_, Gray8>, want: &MonoTextStyle<'_, Gray8>) -> ! {
     panic!("STYLE-API {}: built (text {:?}, background {:?}, underline {:?}, strikethrough {:?}, same font {}) but the fields requested are (text {:?}, background {:?}, underline {:?}, strikethrough {:?})",
            what, got.text_color, got.background_color, got.underline_color, got.strikethrough_color, core::ptr::eq(got.font, want.font),
